@@ -254,6 +254,183 @@ def gen_dangling():
             yield dict(st, dangling=(ref,))
 
 
+# ---------------------------------------------------------------------------
+# sort - edit - sort histories: the second sort must follow the dependency relation as it is *now*
+
+
+def _ir_reference(graphs, hosts):
+    """Dependency digraphs read off the live IR: dep(a, b) iff b or a node nested in b uses a value produced by a.
+    hosts: graph name -> name of the node that holds it (None for main)."""
+    gname = {id(g): k for k, g in graphs.items()}
+    dgs = {k: nx.DiGraph() for k in graphs}
+    node_graph = {}
+    for k, g in graphs.items():
+        for n in g:
+            dgs[k].add_node(n.name)
+            node_graph[n.name] = k
+
+    def chain(nname):
+        out = [nname]
+        while hosts.get(node_graph[out[-1]]) is not None:
+            out.append(hosts[node_graph[out[-1]]])
+        return out
+
+    for k, g in graphs.items():
+        for n in g:
+            for v in n.inputs:
+                if v is None or v.producer() is None or v.producer().graph is None:
+                    continue
+                p = v.producer()
+                pg = gname.get(id(p.graph))
+                if pg is None:
+                    continue
+                for anc in chain(n.name):
+                    if node_graph[anc] == pg:
+                        dgs[pg].add_edge(p.name, anc)
+                        break
+    return dgs
+
+
+def gen_history_structs():
+    """Three main nodes (<= 1 input each, from x, a free value f, or a node output), and two main nodes with a one-node body."""
+    refs = ["x", "f", ("m", 0, 0), ("m", 0, 1), ("m", 1, 0), ("m", 2, 0)]
+    opts = [()] + [(a,) for a in refs]
+    for combo in itertools.product(opts, repeat=3):
+        yield {"main": list(combo)}
+    refs2 = ["x", "f", ("m", 0, 0), ("m", 1, 0)]
+    opts2 = [()] + [(a,) for a in refs2]
+    for host in range(2):
+        for mc in itertools.product(opts2, repeat=2):
+            for b in [(a,) for a in refs2]:
+                yield {"main": list(mc), "body": (host, [b])}
+
+
+def _edits(struct):
+    names = [f"m{i}" for i in range(len(struct["main"]))] + ([f"b{j}" for j in range(len(struct["body"][1]))] if struct.get("body") else [])
+    specs = {f"m{i}": ins for i, ins in enumerate(struct["main"])}
+    if struct.get("body"):
+        specs.update({f"b{j}": ins for j, ins in enumerate(struct["body"][1])})
+    vals = ["x", "f"] + [("m", i, 0) for i in range(len(struct["main"]))] + [("m", 0, 1)]
+    out = [("produce_f", "append"), ("produce_f", "front"), ("produce_f_from", ("m", len(struct["main"]) - 1, 0))]
+    for nm in names:
+        if specs[nm]:
+            for r in vals:
+                out.append(("replace_input", nm, r))
+    for a in vals[1:]:
+        for b in vals:
+            if a != b:
+                out.append(("rauw", a, b))
+    return out
+
+
+def check_history(struct, edit, via="graph"):
+    """sort (warming whatever the implementation caches), one edit, sort again."""
+    out = []
+    f = ir.Value(name="f")
+    x = ir.Value(name="x")
+    specs = {f"m{i}": ins for i, ins in enumerate(struct["main"])}
+    if struct.get("body"):
+        specs.update({f"b{j}": ins for j, ins in enumerate(struct["body"][1])})
+    nodes = {}
+    for nm in specs:
+        nodes[nm] = ir.Node("", "Op", [None] * len(specs[nm]), num_outputs=2 if nm == "m0" else 1, name=nm)
+        for k, o in enumerate(nodes[nm].outputs):
+            o.name = f"{nm}_o{k}"
+
+    def val(ref):
+        if ref is None:
+            return None
+        if ref == "x":
+            return x
+        if ref == "f":
+            return f
+        return nodes[f"{ref[0]}{ref[1]}"].outputs[ref[2]]
+
+    for nm, ins in specs.items():
+        for idx, ref in enumerate(ins):
+            nodes[nm].replace_input_with(idx, val(ref))
+    graphs, hosts = {}, {"main": None}
+    if struct.get("body"):
+        host, bspecs = struct["body"]
+        graphs["body"] = ir.Graph([], [], nodes=[nodes[f"b{j}"] for j in (struct.get("perm_body") or range(len(bspecs)))], name="body")
+        nodes[f"m{host}"].attributes.add(ir.AttrGraph("body", graphs["body"]))
+        hosts["body"] = f"m{host}"
+    graphs["main"] = ir.Graph([x], [], nodes=[nodes[f"m{i}"] for i in (struct.get("perm_main") or range(len(struct["main"])))], name="main")
+
+    try:
+        graphs["main"].sort()
+        first_ok = True
+    except ValueError:
+        first_ok = False
+    for n in nodes.values():
+        n.predecessors()
+        n.successors()
+    # the edit
+    try:
+        if edit[0] in ("produce_f", "produce_f_from"):
+            if f.producer() is not None:
+                return out
+            src = x if edit[0] == "produce_f" else val(edit[1])
+            pnode = ir.Node("", "Op", [src], outputs=[f], name="p_f")
+            if edit[0] == "produce_f" and edit[1] == "front" and len(graphs["main"]):
+                graphs["main"].insert_before(graphs["main"][0], pnode)
+            else:
+                graphs["main"].append(pnode)
+            nodes["p_f"] = pnode
+        elif edit[0] == "replace_input":
+            nodes[edit[1]].replace_input_with(0, val(edit[2]))
+        else:
+            val(edit[1]).replace_all_uses_with(val(edit[2]))
+    except Exception:  # noqa: BLE001  the edit itself is rejected: nothing to check
+        return out
+    dgs = _ir_reference(graphs, hosts)
+    union = nx.DiGraph()
+    for dg in dgs.values():
+        union.add_edges_from(dg.edges)
+    cyclic = any(not nx.is_directed_acyclic_graph(dg) for dg in dgs.values())
+    before = _orders(graphs)
+    try:
+        graphs["main"].sort()
+        exc = None
+    except ValueError as e:
+        exc = e
+    except Exception as e:  # noqa: BLE001
+        return [("unexpected_exception_after_edit", f"{type(e).__name__}: {e}"[:100])]
+    after = _orders(graphs)
+    if cyclic:
+        if exc is None:
+            out.append(("cycle_not_reported_after_edit", (edit, after)))
+        elif after != before:
+            out.append(("order_changed_although_cycle_after_edit", (edit, before, after)))
+        return out
+    if exc is not None:
+        out.append(("acyclic_rejected_after_edit", (edit, str(exc)[:60])))
+        return out
+    for g, dg in dgs.items():
+        if sorted(after[g]) != sorted(before[g]):
+            out.append(("graph_lost_or_gained_nodes_after_edit", (edit, g, before[g], after[g])))
+        elif not _valid(after[g], dg):
+            out.append(("result_not_topological_after_edit", (edit, g, after[g], sorted(dg.edges))))
+    if all(_valid(before[g], dgs[g]) for g in dgs) and after != before:
+        out.append(("valid_order_changed_after_edit", (edit, before, after)))
+    del first_ok
+    return out
+
+
+def _history_work(structs):
+    n = 0
+    found = {}
+    for st in structs:
+        for s in with_perms(st):
+            for edit in _edits(s):
+                n += 1
+                for clause, detail in check_history(s, edit):
+                    key = f"history|{clause}|{edit[0]}"
+                    if key not in found:
+                        found[key] = {"struct": dict(s, history_edit=edit), "via": "graph", "clause": clause, "detail": detail}
+    return "sort_edit_sort", n, 0, n, found
+
+
 def with_perms(struct):
     if struct.get("identity_only"):
         yield struct
@@ -320,6 +497,9 @@ def main(tier):
             tasks.append((fam, via, chunk))
     tasks = common.shuffled(tasks, "c12")
     res = common.pmap(_work, tasks, chunksize=max(1, len(tasks) // (common.NPROC * 8)))
+    hs = list(gen_history_structs())
+    hstep = max(1, len(hs) // 64)
+    res += common.pmap(_history_work, [hs[i:i + hstep] for i in range(0, len(hs), hstep)])
     per = {}
     found = {}
     for fam, n, cyc, reo, f in res:
@@ -330,8 +510,13 @@ def main(tier):
         for k, v in f.items():
             found.setdefault(k, v)
     for key, f in sorted(found.items()):
-        v2 = check_struct(f["struct"], f["via"])
-        v3 = check_struct(f["struct"], f["via"])
+        if f["struct"].get("history_edit"):
+            st = {k: v for k, v in f["struct"].items() if k != "history_edit"}
+            v2 = check_history(st, f["struct"]["history_edit"])
+            v3 = check_history(st, f["struct"]["history_edit"])
+        else:
+            v2 = check_struct(f["struct"], f["via"])
+            v3 = check_struct(f["struct"], f["via"])
         stable = [c for c, _ in v2] == [c for c, _ in v3] and any(c == f["clause"] for c, _ in v2)
         r.violation(key, f"{f['clause']}: {f['detail']}", {"engine": "E6", "input": f["struct"], "via": f["via"],
                                                            "oracle": f["clause"], "detail": f["detail"], "address_dependent": not stable})
@@ -365,6 +550,10 @@ def replay(obj):
             st[k] = s[k]
     if s.get("dangling"):
         st["dangling"] = tuple(fix(i) for i in s["dangling"])
+    if s.get("history_edit"):
+        v = check_history(st, fix(s["history_edit"]))
+        bad = [c for c in v if c[0] == obj["oracle"]]
+        return (not bad), v
     v = check_struct(st, obj.get("via", "graph"))
     bad = [c for c in v if c[0] == obj["oracle"]]
     return (not bad), v
